@@ -259,13 +259,13 @@ def run(ctx):
             r['id'] = 'real-%d' % r['id']
         rv, rst = tracecheck.validate(routs, 'ExpectTrace', ctx.work, constants=TRACE_CONSTS, procs=8, tag='realtr')
         rcnt = Counter(v[0] for v in rv.values())
-        nbase, nrem, npoll = CT.corpus.counts
+        nbase, nrem, npoll, ncut = CT.corpus.counts
         real_note = ('%d histories on real transports (%s; fd and pty transports alternately with select and poll; bytes and unicode): '
                      '%d with the default read size, 2 calls at the end of the stream; %d with a read size that leaves a remainder of '
                      'the last chunk behind when the stream ends (maxread 1, 2, 3, 5 on 3-7 characters; the default 2000 on %d), '
                      '3 calls at the end of the stream; %d polling calls (timeout=0, twice) on a live peer that is silent / has text readable / '
-                     'sends it later; every call bounded (%d reads, %d s): one that does not come back is a violation; validated: %s' % (
-                         len(routs), ', '.join(CT.TRANSPORTS), nbase, nrem, CT.LONG, npoll, CT.MAX_READS, CT.WALL_BUDGET,
+                     'sends it later; %d on unicode objects whose stream ends inside a multi-byte character; every call bounded (%d reads, %d s): one that does not come back is a violation; validated: %s' % (
+                         len(routs), ', '.join(CT.TRANSPORTS), nbase, nrem, CT.LONG, npoll, ncut, CT.MAX_READS, CT.WALL_BUDGET,
                          ', '.join('%s x%d' % kv for kv in sorted(rcnt.items()))))
         ctx.note(real_note)
 
